@@ -62,7 +62,7 @@ meta = {"name": name, "breaks_property": prop, "source": "independent sub-agent 
             "cd <worktree> && /venv/bin/python -m pytest -q -p no:cacheprovider --timeout=900 -q   (exit 0 with the change)",
             "cd <worktree> && /venv/bin/python _seed/demo.py   (exit 1 with the change, exit 0 after git stash)",
             f"tools/killcheck.py seeded/{name}/patch.diff {','.join([prop] + others)} --seeds 0,1"],
-        "needs_to_manifest": "see notes.md", "quick_tier_verdicts_at_intake": verdicts}
+        "needs_to_manifest": "see notes.md (tools/killtable.py copies summary.txt here once it exists)", "quick_tier_verdicts_at_intake": verdicts}
 with open(os.path.join(dst, "meta.json"), "w") as fd:
     json.dump(meta, fd, indent=1)
 print("filed under", dst, verdicts)
